@@ -14,6 +14,8 @@ Exact rationals (fractions.Fraction) everywhere except the final normalisation o
 """
 from __future__ import annotations
 
+from vf.bounded import _meta_guard as _g  # noqa: E402
+
 import math
 import random
 import warnings
@@ -513,15 +515,16 @@ def worker(args):
     with warnings.catch_warnings():
         warnings.simplefilter("ignore")
         if part == "matrix":
-            check_matrices(acc, n, ltype, labels)
+            _g.guard(acc.fail, check_matrices, acc, n, ltype, labels)
         else:
-            check_encoding(acc, n, ltype, labels, rng, thorough)
+            _g.guard(acc.fail, check_encoding, acc, n, ltype, labels, rng, thorough)
             if thorough or n <= 6 or ltype in ("str", "int-zero"):
-                check_e2e(acc, n, ltype, labels, rng, thorough)
+                _g.guard(acc.fail, check_e2e, acc, n, ltype, labels, rng, thorough)
     return part, acc.n, acc.keys, acc.samples, acc.fails
 
 
 def run_bounded(ctx):
+    _g.begin("C11", ctx)
     scope = [(n, lt, ctx.seed, ctx.thorough) for n, lt in scope_for(ctx.thorough)]
     full_scope = [(n, lt, ctx.seed, ctx.thorough) for n, lt in scope_for(True)]
     options = ("Treatment/SAS base in {unset} + every level; Sum; Helmert reverse x scale; Diff backward; Poly scores in "
@@ -542,7 +545,7 @@ def run_bounded(ctx):
         with ctx.bounded(name, rule=rule, exhaustive=exhaustive, bound=bound) as b:
             with ProcessPoolExecutor(16) as ex:
                 part_scope = full_scope if part == "matrix" else scope  # the matrix part is cheap: always the full scope
-                results = list(ex.map(worker, [(part, *t) for t in reversed(part_scope)]))
+                results = _g.safe_map(worker, [(part, *t) for t in reversed(part_scope)])
             for _rpart, n_eval, keys, samples, fails in results:
                 b.add_counts(n_eval, keys, samples)
                 for clause, witness, detail in fails:
